@@ -6901,6 +6901,12 @@ func (bexp *CmpBoolExp) selectorRanges(table *Table, asTable string, params map[
 		return err
 	}
 
+	if rval.Type() == Float64Type && column.colType == IntegerType {
+		// the key encoding would truncate (or overflow) the constant while the row
+		// filter compares as floats: no range, the filter alone decides
+		return nil
+	}
+
 	return updateRangeFor(column.id, rval, bexp.op, rangesByColID)
 }
 
@@ -7725,7 +7731,7 @@ func (bexp *InListExp) selectorRanges(table *Table, asTable string, params map[s
 			maxVal = rv
 		}
 	}
-	if minVal == nil {
+	if minVal == nil || (column.colType == IntegerType && (minVal.Type() == Float64Type || maxVal.Type() == Float64Type)) {
 		return nil
 	}
 
